@@ -67,7 +67,13 @@ class ModelError(Exception):
     pass
 
 
-CHUNK_TIMEOUT = 90          # seconds for one harness process to answer its chunk (normally a few seconds)
+CHUNK_TIMEOUT = 40          # seconds for one harness process to answer its chunk (normally a few seconds)
+HARNESS_MEMORY = 8 << 30    # address-space limit of a harness process: a runaway loop that allocates fails fast instead of filling the machine
+
+
+def _limit():
+    import resource
+    resource.setrlimit(resource.RLIMIT_AS, (HARNESS_MEMORY, HARNESS_MEMORY))
 
 
 def run_impl(lines, release=False, binary="impl_run", env=None, shards=JOBS):
@@ -83,7 +89,7 @@ def run_impl(lines, release=False, binary="impl_run", env=None, shards=JOBS):
     def one(chunk):
         try:
             r = subprocess.run([exe], input="\n".join(chunk) + "\n", capture_output=True, text=True, env=env or ENV,
-                               timeout=CHUNK_TIMEOUT)
+                               timeout=CHUNK_TIMEOUT, preexec_fn=_limit)
         except subprocess.TimeoutExpired as e:
             # a line of this chunk does not come back: the replies received so far tell which one
             got = e.stdout or b""
